@@ -55,11 +55,16 @@ CONFIGS = {
     'quick': [
         ('N1-R4', dict(N=1, Kinds={"c", "pp", "pa"}, RootCfg="R4", Decls={"none"}, DocLevel=False)),
         ('N3-R1', dict(N=3, Kinds=ALL_KINDS, RootCfg="R1", Decls=ALL_DECLS, DocLevel=True)),
-        ('N3-R2', dict(N=3, Kinds=ALL_KINDS, RootCfg="R2", Decls=ALL_DECLS, DocLevel=False)),
-        ('N3-R3', dict(N=3, Kinds=ALL_KINDS, RootCfg="R3", Decls=ALL_DECLS, DocLevel=False)),
+        ('N3-R2', dict(N=3, Kinds=ALL_KINDS, RootCfg="R2", Decls={"p", "dp"}, DocLevel=False)),
+        ('N3-R3', dict(N=3, Kinds=ALL_KINDS, RootCfg="R3", Decls={"p", "dp"}, DocLevel=False)),
         ('N4-R1-pos', dict(N=4, Kinds={"a0", "b0", "t", "c", "pp", "pa"}, RootCfg="R1", Decls={"none"}, DocLevel=True)),
         ('N4-R2-ns', dict(N=4, Kinds={"ad", "a0", "an", "xa0", "t"}, RootCfg="R2", Decls={"dp"}, DocLevel=False)),
         ('N4-R3-pos', dict(N=4, Kinds={"a0", "an", "c", "pp", "t"}, RootCfg="R3", Decls={"p"}, DocLevel=False)),
+        # zero-length text chunks (elem.text = '' / tail = ''), element root
+        ('N4-R2-te', dict(N=4, Kinds={"a0", "t", "te", "c"}, RootCfg="R2", Decls={"none"}, DocLevel=False)),
+        # extended documents: several element / text / comment / PI children of the document node
+        ('N3-R5', dict(N=3, Kinds={"a0", "b0", "xa0", "t", "te", "c", "pp", "pa"}, RootCfg="R5", Decls={"none"},
+                       DocLevel=False)),
     ],
     'thorough': [
         ('N1-R4', dict(N=1, Kinds={"c", "pp", "pa"}, RootCfg="R4", Decls={"none"}, DocLevel=False)),
@@ -67,8 +72,12 @@ CONFIGS = {
         ('N4-R2', dict(N=4, Kinds=ALL_KINDS, RootCfg="R2", Decls=ALL_DECLS, DocLevel=False)),
         ('N4-R3', dict(N=4, Kinds=ALL_KINDS, RootCfg="R3", Decls=ALL_DECLS, DocLevel=False)),
         ('N5-R1-pos', dict(N=5, Kinds={"a0", "b0", "t", "c", "pp", "pa"}, RootCfg="R1", Decls={"none"}, DocLevel=True)),
-        ('N5-R2-ns', dict(N=5, Kinds={"ad", "a0", "an", "xa0", "t"}, RootCfg="R2", Decls={"dp"}, DocLevel=False)),
+        ('N5-R2-ns', dict(N=5, Kinds={"ad", "a0", "xa0", "t"}, RootCfg="R2", Decls={"dp"}, DocLevel=False)),
         ('N5-R3-pos', dict(N=5, Kinds={"a0", "an", "c", "pp", "t"}, RootCfg="R3", Decls={"p"}, DocLevel=False)),
+        ('N5-R2-te', dict(N=5, Kinds={"a0", "t", "te", "c"}, RootCfg="R2", Decls={"none"}, DocLevel=False)),
+        ('N3-R5', dict(N=3, Kinds={"a0", "b0", "xa0", "t", "te", "c", "pp", "pa"}, RootCfg="R5", Decls={"none"},
+                       DocLevel=False)),
+        ('N4-R5', dict(N=4, Kinds={"a0", "b0", "t", "te", "c", "pp"}, RootCfg="R5", Decls={"none"}, DocLevel=False)),
     ],
 }
 # the former counting algorithm (before fix bbeb72e), modelled in the spec (ImplPos), must be REFUTED by TLC
@@ -88,25 +97,35 @@ NSMAP = {'none': {}, 'p': {'p': 'urn:n'}, 'dp': {'': 'urn:d', 'p': 'urn:n'}}
 NS_IDX = {'xml': 1, '': 2, 'p': 3}
 XML_NS = 'http://www.w3.org/XML/1998/namespace'
 KIND_CLASS = {'a0': 'elem', 'b0': 'elem', 'an': 'elem', 'ad': 'elem', 'bd': 'elem', 'xa0': 'attr', 'xan': 'attr',
-              'pp': 'pi', 'pa': 'pi', 't': 'text', 'c': 'comment'}
+              'pp': 'pi', 'pa': 'pi', 't': 'text', 'te': 'text', 'c': 'comment'}
 
 
 class XDoc:
-    """One concrete document for an abstract (parent, kind, decl) tree."""
+    """One concrete document for an abstract (parent, kind, decl) tree.  With wrapper=True (RootCfg R5) the
+    children of the document node are built as the children of a dummy <document> element, which is how the
+    library itself builds extended documents (parse-xml-fragment, get_document_node(replace=True))."""
 
-    def __init__(self, parent: tuple, kind: tuple, decl: str, lib: str):
+    def __init__(self, parent: tuple, kind: tuple, decl: str, lib: str, wrapper: bool = False):
         self.parent, self.kind, self.decl, self.lib = parent, kind, decl, lib
         mod = ET if lib == 'etree' else LX
         n = len(parent)
         self.objs: dict[int, object] = {}
         self.obj2id: dict[int, int] = {}
+        self.empty_text: dict[tuple, int] = {}      # (parent id, previous sibling id or 0) -> id of a '' text node
         last_child: dict[int, object] = {}
+        last_child_id: dict[int, int] = {}
         top = [i for i in range(1, n + 1) if parent[i - 1] == 0]
-        self.root_id = next(i for i in top if kind[i - 1] in TAG)
-        before = [i for i in top if i < self.root_id]
-        after = [i for i in top if i > self.root_id]
-        if (before or after) and lib != 'lxml':
-            raise ValueError('document-level siblings need lxml')
+        before = after = []
+        self.wrapper = None
+        if wrapper:
+            self.wrapper = self.objs[0] = mod.Element('document')
+            self.root_id = 0
+        else:
+            self.root_id = next(i for i in top if kind[i - 1] in TAG)
+            before = [i for i in top if i < self.root_id]
+            after = [i for i in top if i > self.root_id]
+            if (before or after) and lib != 'lxml':
+                raise ValueError('document-level siblings need lxml')
 
         def leaf(i):
             k = kind[i - 1]
@@ -116,7 +135,7 @@ class XDoc:
 
         for i in range(1, n + 1):
             k, p = kind[i - 1], parent[i - 1]
-            if p == 0:
+            if p == 0 and not wrapper:
                 if i == self.root_id:
                     if lib == 'lxml':
                         nsmap = {(pf or None): uri for pf, uri in NSMAP[decl].items()}
@@ -128,19 +147,24 @@ class XDoc:
             if k in TAG:
                 el = mod.SubElement(self.objs[p], TAG[k])
                 last_child[p] = el
+                last_child_id[p] = i
                 self.objs[i] = el
             elif k in ATTR:
                 self.objs[p].set(ATTR[k], f'v{i}')
-            elif k == 't':
+            elif k in ('t', 'te'):
+                value = f't{i}' if k == 't' else ''         # '' is a zero-length chunk, distinct from None
                 prev = last_child.get(p)
                 if prev is None:
-                    self.objs[p].text = f't{i}'
+                    self.objs[p].text = value
                 else:
-                    prev.tail = f't{i}'
+                    prev.tail = value
+                if k == 'te':
+                    self.empty_text[(p, last_child_id.get(p, 0))] = i
             else:
                 el = leaf(i)
                 self.objs[p].append(el)
                 last_child[p] = el
+                last_child_id[p] = i
                 self.objs[i] = el
         self.root = self.objs[self.root_id]
         for i in before:
@@ -151,12 +175,34 @@ class XDoc:
             self.root.addnext(self.objs[i])
         self.tree = ET.ElementTree(self.root) if lib == 'etree' else self.root.getroottree()
         for i, o in self.objs.items():
-            self.obj2id[id(o)] = i
+            if i:
+                self.obj2id[id(o)] = i
         self.namespaces = dict(NSMAP[decl]) or None
 
+    def fragment_text(self) -> str:
+        """The children of the document as XML text (argument of fn:parse-xml-fragment); dumb rendering."""
+        n = len(self.parent)
+
+        def render(i):
+            k = self.kind[i - 1]
+            if k == 't':
+                return f't{i}'
+            if k == 'c':
+                return f'<!--c{i}-->'
+            if k in TARGET:
+                return f'<?{TARGET[k]} p{i}?>'
+            if k not in ('a0', 'b0'):
+                raise ValueError(k)
+            atts = ''.join(f" {ATTR[self.kind[j - 1]]}='v{j}'" for j in range(1, n + 1)
+                           if self.parent[j - 1] == i and self.kind[j - 1] in ATTR)
+            inner = ''.join(render(j) for j in range(1, n + 1)
+                            if self.parent[j - 1] == i and self.kind[j - 1] not in ATTR)
+            return f'<{TAG[k]}{atts}>{inner}</{TAG[k]}>' if inner else f'<{TAG[k]}{atts}/>'
+        return ''.join(render(i) for i in range(1, n + 1) if self.parent[i - 1] == 0)
+
     def xml(self) -> str:
-        if self.lib == 'etree':
-            return ET.tostring(self.root, encoding='unicode')
+        if self.lib == 'etree' or self.wrapper is not None:
+            return (ET if self.lib == 'etree' else LX).tostring(self.root, encoding='unicode')
         return LX.tostring(self.tree, encoding='unicode')
 
     def ns_uri(self, nid: int) -> str:
@@ -171,6 +217,8 @@ class XDoc:
             if isinstance(it, str):
                 if it[:1] in 'tv' and it[1:].isdigit():
                     out.append(int(it[1:]))
+                elif it == '':
+                    out.append(('emptytext',))
                 elif it in (XML_NS, 'urn:d', 'urn:n'):
                     out.append(('nsuri', it))
                 else:
@@ -186,15 +234,26 @@ class XDoc:
 
 
 def node_ids(doc: XDoc, nt) -> dict:
-    """real XPathNode -> abstract id, by kind + unique value (never by position in the tree)."""
+    """real XPathNode -> abstract id, by kind + unique value; a zero-length text node has no value to carry an id
+    and is recognised by its parent and its preceding sibling."""
     from elementpath import (AttributeNode, CommentNode, DocumentNode, ElementNode, NamespaceNode,
                              ProcessingInstructionNode, TextNode)
+
+    def oid(nd):
+        if isinstance(nd, DocumentNode):
+            return 0
+        return doc.obj2id.get(id(nd.value))
+
     m = {}
     for nd in nt.iter():
         if isinstance(nd, DocumentNode):
             i = 0
         elif isinstance(nd, (ElementNode, CommentNode, ProcessingInstructionNode)):
             i = doc.obj2id.get(id(nd.value), ('?', repr(nd)))
+        elif isinstance(nd, TextNode) and nd.value == '' and nd.parent is not None:
+            sibs = nd.parent.children
+            k = next(j for j, c in enumerate(sibs) if c is nd)
+            i = doc.empty_text.get((oid(nd.parent), oid(sibs[k - 1]) if k else 0), ('?', repr(nd)))
         elif isinstance(nd, (TextNode, AttributeNode)):
             v = nd.value
             i = int(v[1:]) if isinstance(v, str) and v[:1] in 'tv' and v[1:].isdigit() else ('?', repr(nd))
@@ -204,6 +263,33 @@ def node_ids(doc: XDoc, nt) -> dict:
         else:
             i = ('?', repr(nd))
         m[id(nd)] = (i, nd)
+    return m
+
+
+def pair_in_document_order(doc: XDoc, nt, abstract_ids: list) -> dict:
+    """For a tree that the LIBRARY parsed from text (fn:parse-xml-fragment) there is no object shared with the
+    binder: the nodes are paired with the abstract nodes in document order (kinds must agree), and the parsed
+    etree objects are entered in doc.obj2id so that select() results can be projected."""
+    from elementpath import (AttributeNode, CommentNode, DocumentNode, ElementNode, NamespaceNode,
+                             ProcessingInstructionNode, TextNode)
+    cls = {'doc': DocumentNode, 'elem': ElementNode, 'attr': AttributeNode, 'text': TextNode, 'comment': CommentNode,
+           'pi': ProcessingInstructionNode, 'ns': NamespaceNode}
+    real = list(nt.iter())
+    order = []
+    for i in abstract_ids:
+        if i < 100:
+            order.append(i)
+            order += [j for j in abstract_ids if j >= 100 and j // 100 == i and i]
+    if len(real) != len(order):
+        raise tla.MachineryError(f'parse-xml-fragment({doc.fragment_text()!r}) built {len(real)} nodes, the specification '
+                                 f'has {len(order)}: {[repr(x) for x in real]}')
+    m = {}
+    for nd, i in zip(real, order):
+        if not isinstance(nd, cls[kind_of(doc.kind, i)]):
+            raise tla.MachineryError(f'parse-xml-fragment({doc.fragment_text()!r}): node {nd!r} paired with {i}')
+        m[id(nd)] = (i, nd)
+        if isinstance(nd, (ElementNode, CommentNode, ProcessingInstructionNode)):
+            doc.obj2id[id(nd.value)] = i
     return m
 
 
@@ -297,7 +383,7 @@ class Recorder:
     def __init__(self):
         self.failures: dict = {}
         self.stats = dict(states=0, transitions=0, evaluations=0, nontrivial=0, lx_evals=0, string_checks=0,
-                          select_checks=0)
+                          select_checks=0, history_checks=0)
         self.oracle: list = []
         self.samples: list = []
 
@@ -318,6 +404,14 @@ def run_case(case: dict):
         return r4_path(kind[0])
     env = Env(parent, kind, decl, lib, root_cfg)
     what = case['what']
+    if what in ('shared', 'shared-bulk'):
+        sh = Shared()          # a fresh compiled expression driven through the recorded history
+        for h in case['history']:
+            if h is not None:
+                sh.warm(Env(tuple(h['parent']), tuple(h['kind']), h['decl'], h['lib'], h['root']))
+        if what == 'shared-bulk':
+            return sh.bulk_of(env, case['parser'])
+        return sh.path_of(env, case['node'], case['route'], case['parser'])
     if what == 'string':
         return env.real_string(case['api'], case['node'], case.get('parser'))
     if what == 'bulk':
@@ -340,13 +434,29 @@ class Env:
     def __init__(self, parent, kind, decl, lib, root_cfg):
         import elementpath
         self.ep = elementpath
-        self.doc = XDoc(parent, kind, decl, lib)
+        self.lib = lib
         self.root_cfg = root_cfg
         self.kw = {'fragment': True} if root_cfg == 'R3' else {}
-        self.root = self.doc.tree if root_cfg == 'R1' else self.doc.root
-        self.ns = self.doc.namespaces
-        self.nt = elementpath.get_node_tree(self.root, namespaces=self.ns, **self.kw)
-        self.n2i = node_ids(self.doc, self.nt)
+        if root_cfg == 'R5':
+            # extended document node (several element / text children), built by the library's own two routes
+            self.doc = XDoc(parent, kind, decl, 'lxml' if lib == 'lxml-parse' else lib, wrapper=True)
+            self.ns = None
+            if lib == 'lxml-parse':
+                ctx = elementpath.XPathContext(LX.XML('<dummy/>'), variables={'s': self.doc.fragment_text()})
+                self.nt = parsers()['3.1']().parse('parse-xml-fragment($s)').evaluate(ctx)
+                if not isinstance(self.nt, elementpath.DocumentNode):
+                    raise tla.MachineryError(f'parse-xml-fragment({self.doc.fragment_text()!r}) returned {self.nt!r}')
+                self.n2i = pair_in_document_order(self.doc, self.nt, abstract_ids(parent, kind, decl, root_cfg))
+            else:
+                self.nt = elementpath.get_node_tree(self.doc.wrapper).get_document_node(replace=True)
+                self.n2i = node_ids(self.doc, self.nt)
+            self.root = self.nt
+        else:
+            self.doc = XDoc(parent, kind, decl, lib)
+            self.root = self.doc.tree if root_cfg == 'R1' else self.doc.root
+            self.ns = self.doc.namespaces
+            self.nt = elementpath.get_node_tree(self.root, namespaces=self.ns, **self.kw)
+            self.n2i = node_ids(self.doc, self.nt)
         self.by_id = {i: nd for (i, nd) in self.n2i.values() if not isinstance(i, tuple)}
         self._iter = {}
 
@@ -418,7 +528,73 @@ class Env:
 def expected_projection(doc: XDoc, n: int, mode: str) -> list:
     if mode == 'select' and n >= 100:
         return [('nsuri', doc.ns_uri(n))]
+    if mode == 'select' and 0 < n < 100 and doc.kind[n - 1] == 'te':
+        return [('emptytext',)]
     return [n]
+
+
+NS_OF_DECL = {'none': (1,), 'p': (1, 3), 'dp': (1, 2, 3)}
+
+
+def abstract_ids(parent, kind, decl, root_cfg) -> list:
+    """The node ids of a tree as the specification numbers them (checked against the TLC states of the tree)."""
+    ids = [0] if root_cfg in ('R1', 'R5') else []
+    for i in range(1, len(parent) + 1):
+        ids.append(i)
+        if kind[i - 1] in TAG:
+            ids += [100 * i + j for j in NS_OF_DECL[decl]]
+    return sorted(ids)
+
+
+# ---------------------------------------------------------------------------------------
+# history: ONE parsed token / Selector per worker process, evaluated over the whole sequence of trees
+
+class Shared:
+    """`path()` and the bulk expression parsed ONCE (Selector and bare token, 3.0 and 3.1) and then evaluated on
+    every node of every tree that the worker process replays -- element roots with different names and
+    namespaces, documents, fragments, extended documents -- as a long-lived compiled expression is used."""
+    BULK = '(. | .//node() | .//@*)!path(.)'
+
+    def __init__(self):
+        from elementpath import Selector
+        self.sel = {pv: Selector('path()', parser=P) for pv, P in parsers().items()}
+        self.tok = {pv: P().parse('path(.)') for pv, P in parsers().items()}
+        self.bulk = {pv: Selector(self.BULK, parser=P) for pv, P in parsers().items()}
+        self.first = None       # the first and the latest tree seen: what --replay re-creates as history
+        self.prev = None
+
+    def path_of(self, env: 'Env', n: int, route: str, pv: str):
+        try:
+            if route == 'selector':
+                return self.sel[pv].select(env.nt, item=env.by_id[n], namespaces=env.ns, **env.kw)
+            ctx = env.ep.XPathContext(env.nt, item=env.by_id[n], namespaces=env.ns, **env.kw)
+            return self.tok[pv].evaluate(ctx)
+        except Exception as e:
+            return outcome_of(e)
+
+    def bulk_of(self, env: 'Env', pv: str):
+        try:
+            return self.bulk[pv].select(env.root, namespaces=env.ns, **env.kw)
+        except Exception as e:
+            return outcome_of(e)
+
+    def warm(self, env: 'Env'):
+        for n in sorted(env.by_id):
+            for pv in self.sel:
+                self.path_of(env, n, 'selector', pv)
+                self.path_of(env, n, 'token', pv)
+        for pv in self.bulk:
+            self.bulk_of(env, pv)
+
+
+_shared = None
+
+
+def shared() -> Shared:
+    global _shared
+    if _shared is None:
+        _shared = Shared()
+    return _shared
 
 
 def tree_worker(job):
@@ -430,7 +606,7 @@ def tree_worker(job):
     par_of = {dst: (src, step) for (src, dst, step) in edges}
 
     top_elem = next(i for i in range(1, len(parent) + 1) if parent[i - 1] == 0 and kind[i - 1] in TAG) \
-        if root_cfg != 'R4' else 0
+        if root_cfg not in ('R4', 'R5') else 0
 
     def feat(n, **kw):
         f = dict(kind=kind_of(kind, n), root=root_cfg)
@@ -458,6 +634,9 @@ def tree_worker(job):
         return rec
 
     all_nodes = sorted(states)
+    if all_nodes != abstract_ids(parent, kind, decl, root_cfg):
+        raise tla.MachineryError(f'node numbering of the binder differs from the TLC states: {all_nodes}')
+    sh = shared()
     for lib in libs:
         env = Env(parent, kind, decl, lib, root_cfg)
         doc = env.doc
@@ -466,7 +645,7 @@ def tree_worker(job):
             raise tla.MachineryError(f'binder: nodes of the real tree {sorted(map(str, real_ids))} != nodes of the '
                                      f'specification {all_nodes} for {parent} {kind} {decl} {root_cfg} {lib}')
         # second oracle for the specification: libxml2 on an XPath 1.0 transliteration of the structured steps
-        if lib == 'lxml' and root_cfg == 'R1':
+        if lib == 'lxml' and root_cfg in ('R1', 'R5'):
             for n in all_nodes:
                 if n == 0:
                     continue
@@ -474,7 +653,7 @@ def tree_worker(job):
                 while m:
                     m, s = par_of[m]
                     steps.append(xp1_step(s))
-                p1 = '/' + '/'.join(reversed(steps))
+                p1 = ('/document/' if root_cfg == 'R5' else '/') + '/'.join(reversed(steps))
                 try:
                     res = doc.tree.xpath(p1)
                 except Exception as e:
@@ -483,7 +662,7 @@ def tree_worker(job):
                     got = [(r[0] or '', r[1]) if isinstance(r, tuple) else r for r in res]
                     ok = got == [({1: 'xml', 2: '', 3: 'p'}[n % 100], doc.ns_uri(n))]
                 else:
-                    ok = doc.project(res) == [n]
+                    ok = doc.project(res) == expected_projection(doc, n, 'select')
                 st['lx_evals'] += 1
                 if not ok:
                     rec.oracle.append(dict(tree=[parent, kind, decl], path=p1, node=n, libxml2=repr(res)[:200]))
@@ -500,7 +679,7 @@ def tree_worker(job):
             for pv in ('3.0', '3.1'):
                 checks.append(('fn:path', pv, t['fn']))
             checks.append(('fn:path()', '3.1', t['fn']))
-            if kcls in ('doc', 'elem', 'comment', 'pi'):
+            if kcls in ('doc', 'elem', 'comment', 'pi') and root_cfg != 'R5':
                 checks.append(('fn:path(raw item)', '3.0', t['fn']))
             if kcls in ('elem', 'comment', 'pi') and t['rel']:
                 checks.append(('etree_iter_paths', None, t['rel']))
@@ -518,12 +697,14 @@ def tree_worker(job):
                              case(lib, what='string', api=api, node=n, parser=pv, xml=doc.xml()),
                              exp, dict(string=obs, selects=extra))
             # ---- the specification's text, evaluated by the real parsers, must select exactly this node
-            evals = [('fn', t['fn'], None), ('doc', t['doc'], None)]
+            evals = [('fn', t['fn'], None)]
+            if t['doc'] != t['fn']:      # with a document root the two schemes are the same text
+                evals.append(('doc', t['doc'], None))
             if t['rel']:
                 evals.append(('rel', t['rel'], doc.root_id))
             if t['frag']:
                 evals.append(('frag', t['frag'], None))
-            if t['step'] and n in par_of and (par_of[n][0] != 0 or root_cfg == 'R1'):
+            if t['step'] and n in par_of and (par_of[n][0] != 0 or root_cfg in ('R1', 'R5')):
                 evals.append(('step', t['step'], par_of[n][0]))
             for scheme, text, item_id in evals:
                 if scheme == 'step':
@@ -555,6 +736,35 @@ def tree_worker(job):
                 rec.fail(feat(n0, api='fn:path(bulk)', check='string', lib=lib, parser=pv,
                               outcome=string_outcome(o0, txt[n0]['fn']) if bad else 'length'),
                          case(lib, what='bulk', parser=pv, xml=doc.xml()), exp, obs)
+        # ---- history: the worker's ONE parsed path() Selector / token / bulk Selector, on this tree as well
+        here = dict(parent=list(parent), kind=list(kind), decl=decl, lib=lib, root=root_cfg)
+        hist = [sh.first, sh.prev]
+        reuse = 'first-tree' if sh.first is None else 'later-tree'
+        for n in all_nodes:
+            for route in ('selector', 'token'):
+                for pv in ('3.0', '3.1'):
+                    exp = txt[n]['fn']
+                    obs = sh.path_of(env, n, route, pv)
+                    st['evaluations'] += 1
+                    st['string_checks'] += 1
+                    st['history_checks'] = st.get('history_checks', 0) + 1
+                    if obs != exp:
+                        rec.fail(feat(n, api=f'fn:path(shared {route})', check='string', lib=lib, parser=pv, reuse=reuse,
+                                      outcome=string_outcome(obs, exp)),
+                                 case(lib, what='shared', node=n, route=route, parser=pv, history=hist, xml=doc.xml()),
+                                 exp, obs)
+        for pv in ('3.0', '3.1'):
+            exp = [txt[n]['fn'] for n in all_nodes if n < 100]
+            obs = sh.bulk_of(env, pv)
+            st['evaluations'] += 1
+            st['history_checks'] = st.get('history_checks', 0) + 1
+            if obs != exp:
+                rec.fail(feat(0, api='fn:path(shared bulk)', check='string', lib=lib, parser=pv, reuse=reuse,
+                              outcome='differs'),
+                         case(lib, what='shared-bulk', parser=pv, history=hist, xml=doc.xml()), exp, obs)
+        if sh.first is None:
+            sh.first = here
+        sh.prev = here
         if len(rec.samples) < 1 and len(all_nodes) > 4:
             n = all_nodes[-1]
             rec.samples.append(dict(xml=doc.xml(), root=root_cfg, lib=lib, node=n, fn_path=txt[n]['fn'],
@@ -631,6 +841,9 @@ def run(chk: core.Check) -> None:
     ]
     negative_model(chk)
     cfgs = CONFIGS[chk.tier]
+    only = os.environ.get('VERIF_C14_ONLY')      # development aid: comma separated configuration names
+    if only:
+        cfgs = [c for c in cfgs if c[0] in only.split(',')]
     chk.coverage['configs'] = [dict(name=n, **{k: (sorted(v) if isinstance(v, set) else v) for k, v in c.items()})
                                for n, c in cfgs]
     all_oracle = 0
@@ -668,9 +881,18 @@ def run(chk: core.Check) -> None:
             if len(eds) != len(sts) - 1:
                 raise tla.MachineryError(f'state graph of tree {p} {k} {d} is not a tree: {len(sts)} states, {len(eds)} edges')
             doclevel = sum(1 for x in p if x == 0) > 1
-            libs = ('lxml',) if doclevel else ('etree', 'lxml')
+            if root_cfg == 'R5':     # '' text chunks cannot be written as XML text: no parse-xml-fragment route
+                libs = ('etree', 'lxml') + (() if 'te' in k else ('lxml-parse',))
+            else:
+                libs = ('lxml',) if doclevel else ('etree', 'lxml')
             jobs.append((p, k, d, root_cfg, sts, eds, libs))
         jobs.sort(key=lambda j: (j[0], j[1], j[2]))
+        # consecutive trees of a worker get DIFFERENT root names / namespaces (history of the shared tokens)
+        by_root: dict = {}
+        for j in jobs:
+            by_root.setdefault(next((x for x in j[1] if x in TAG), j[1][0]), []).append(j)
+        groups = [by_root[r] for r in sorted(by_root)]
+        jobs = [g[i] for i in range(max(map(len, groups))) for g in groups if i < len(g)]
         chunks = core.chunked(jobs, 64)
         results = core.pool_map(chunk_worker, chunks, procs=int(os.environ.get('VERIF_PROCS', '16')))
         for stats, fails, odis, n_odis, samples in results:
@@ -679,6 +901,7 @@ def run(chk: core.Check) -> None:
             chk.add('string_comparisons', stats['string_checks'])
             chk.add('roundtrip_evaluations', stats['select_checks'])
             chk.add('second_oracle_evaluations', stats['lx_evals'])
+            chk.add('history_evaluations_on_shared_tokens', stats.get('history_checks', 0))
             chk.add('distinct_nontrivial', stats['nontrivial'])
             chk.add('traces_validated_against_impl', stats['states'])
             all_oracle += n_odis
